@@ -265,3 +265,29 @@ def gen_binops(rng, n):
              if l in ("tA", "tA2", "tB", "uA", "uB", "plain") or r in ("tA", "tA2", "tB", "uA", "uB", "plain")]
     rng.shuffle(space)
     return [binop_case(*s, prot=rng.choice(PROTS)) for s in space[:n]], len(space) * 5
+
+
+def chain_limit_cases():
+    """__index / __newindex chains of tables around the bound of 100 links (MAXTAGLOOP): beyond it the access is an error,
+    up to it the chain is followed to the end; constant and computed keys, reads and writes"""
+    out = []
+    for n in (1, 50, 97, 98, 99, 100, 101, 102, 150):
+        p = Prog()
+        mk = lambda ev, start: [p.local(["c"], [p.id(start)]),
+                                p.fornum("i", p.num(1), p.num(n), 0, p.block([p.assign([p.id("c")], [p.call(p.id("setmetatable"), [p.table([]), p.table([("k", _name(p, ev), p.id("c"))])])])]))]
+        ss = [p.local(["base"], [p.table([("k", _name(p, "deep"), p.str("found")), ("p", p.str("one"))])])]
+        ss.append(p.do(p.block(mk("__index", "base") + [
+            p.emit([p.str("const"), p.num(n), p.call(p.id("pcall"), [p.func([], p.block([p.ret([p.field(p.id("c"), "deep")])]))])]),
+            p.local(["k", "k1"], [p.str("deep"), p.num(1)]),
+            p.emit([p.str("dyn"), p.call(p.id("pcall"), [p.func([], p.block([p.ret([p.index(p.id("c"), p.id("k"))])]))])]),
+            p.emit([p.str("num"), p.call(p.id("pcall"), [p.func([], p.block([p.ret([p.index(p.id("c"), p.id("k1"))])]))])]),
+            p.emit([p.str("absent"), p.call(p.id("pcall"), [p.func([], p.block([p.ret([p.field(p.id("c"), "nothing")])]))])]),
+            p.emit([p.str("method"), p.call(p.id("pcall"), [p.func([], p.block([p.ret([p.method(p.id("c"), "deep", [])])]))])])])))
+        ss.append(p.local(["sink"], [p.table([])]))
+        ss.append(p.do(p.block(mk("__newindex", "sink") + [
+            p.emit([p.str("set-const"), p.call(p.id("pcall"), [p.func([], p.block([p.assign([p.field(p.id("c"), "x")], [p.num(1)])]))]), p.call(p.id("rawget"), [p.id("sink"), p.str("x")])]),
+            p.local(["kk"], [p.str("y")]),
+            p.emit([p.str("set-dyn"), p.call(p.id("pcall"), [p.func([], p.block([p.assign([p.index(p.id("c"), p.id("kk"))], [p.num(2)])]))]), p.call(p.id("rawget"), [p.id("sink"), p.str("y")])]),
+            p.emit([p.str("set-num"), p.call(p.id("pcall"), [p.func([], p.block([p.assign([p.index(p.id("c"), p.num(7))], [p.num(3)])]))]), p.call(p.id("rawget"), [p.id("sink"), p.num(7)])])])))
+        out.append((p, p.block(ss)))
+    return out
